@@ -424,7 +424,10 @@ static void HandleShellEscape(const json& in) {
   for (auto& c : in["cases"]) {
     State state;
     Rule* rule = new Rule("r");
-    EvalString cmd; cmd.AddText("argdump "); cmd.AddSpecial("in"); cmd.AddText(" -- "); cmd.AddSpecial("out");
+    EvalString cmd;
+    // "cmdword": the first input is the command word itself (`$in -- $out`)
+    if (!c.value("cmdword", false)) cmd.AddText("argdump ");
+    cmd.AddSpecial("in"); cmd.AddText(" -- "); cmd.AddSpecial("out");
     rule->AddBinding("command", cmd);
     EvalString rc; rc.AddSpecial("in_newline");
     rule->AddBinding("rspfile_content", rc);
